@@ -103,11 +103,26 @@ def case_st(draw):
                                             with_id=True))
             tx.setdefault(name, {})["insertions"] = ins
         info.append((name, refs, ins))
+    sc["row_only_sort"] = False
     for k, (name, refs, ins) in enumerate(info):
         opp = info[1 - k]
         if draw(st.integers(0, 2)) == 0:
             order = draw(xforms.order_st(
                 refs, opp[1], [i["id"] for i in opp[2]], "cols", measures=MEASURES))
+            ovar = sv["vars"][q["dims"][1 - k]["var"]]
+            if draw(st.integers(0, 4)) == 0:
+                # sorts that exist for ROWS only in the library: by a marginal, and by an
+                # item of an opposing array dimension addressed as an "insertion" (how the
+                # user-facing language treats zz9-derived items)
+                if ovar["type"] == "mr" and draw(st.booleans()):
+                    order = {"type": "opposing_insertion",
+                             "insertion_id": draw(st.sampled_from(list(opp[1]))),
+                             "measure": draw(st.sampled_from(MEASURES))}
+                else:
+                    order = {"type": "marginal",
+                             "marginal": draw(st.sampled_from(["unweighted_base", "weighted_base",
+                                                               "table_proportion"]))}
+                sc["row_only_sort"] = True
             if order:
                 tx.setdefault(name, {})["order"] = order
         elements, prune = draw(xforms.hide_prune_st(refs))
@@ -138,6 +153,19 @@ def judge(case, rec):
         # sorting by a population estimate when both dimensions are categorical-date: the
         # estimate itself is direction-dependent there (documented exclusion), so is the order
         rec.event("both-date population sort skipped")
+        return
+    if case.get("row_only_sort"):
+        # the mirrored transform must give the mirrored order; the library implements these
+        # two sorts for rows only and silently keeps payload order on columns
+        rec.event("row-only sort mirrored")
+        rec.compared(2)
+        if [int(x) for x in A.row_order()] != [int(x) for x in B.column_order()] or \
+                [int(x) for x in A.column_order()] != [int(x) for x in B.row_order()]:
+            rec.violation("rows / columns order %r / %r but the transposed run with the "
+                          "mirrored transforms has columns / rows order %r / %r" % (
+                              list(A.row_order()), list(A.column_order()),
+                              list(B.column_order()), list(B.row_order())),
+                          "column-side-sort-not-implemented")
         return
     sA, sB = observe.snapshot(A), observe.snapshot(B)
     if tuple(A.shape) != tuple(reversed(B.shape)):
